@@ -218,7 +218,13 @@ def run_cases(report: Report, modname: str, cases, jobs=None, chunk=None):
 
 
 def load_findings(prop_id):
+    """open findings {sig: text}, fixed lines, and {sig: set of case keys or None}.
+
+    A finding line may carry inputs=<file relative to /verif>: a committed list of `sig<TAB>case-key<TAB>description`
+    lines naming the exact inputs that fail.  The finding then covers only those inputs: the same coarse
+    signature on an input that is not listed is reported as a new violation."""
     open_, fixed = {}, []
+    inputs = {}
     if FINDINGS_FILE.exists():
         for line in FINDINGS_FILE.read_text().splitlines():
             line = line.strip()
@@ -226,14 +232,22 @@ def load_findings(prop_id):
                 continue
             kind, _, rest = line.partition(":")
             toks = rest.split()
-            kv = dict(t.split("=", 1) for t in toks if "=" in t and t.split("=")[0] in ("property", "sig"))
+            kv = dict(t.split("=", 1) for t in toks if "=" in t and t.split("=")[0] in ("property", "sig", "inputs"))
             if kv.get("property") != prop_id:
                 continue
             if kind == "finding":
-                text = " ".join(t for t in toks if not t.startswith(("property=", "sig=")))
+                text = " ".join(t for t in toks if not t.startswith(("property=", "sig=", "inputs=")))
                 open_[kv.get("sig", "")] = text
+                if "inputs" in kv:
+                    keys = set()
+                    for l in (ROOT / kv["inputs"]).read_text().splitlines():
+                        f = l.split("\t")
+                        if len(f) >= 2 and f[0] == kv.get("sig", ""):
+                            keys.add(f[1])
+                    inputs[kv.get("sig", "")] = keys
             elif kind == "fixed":
                 fixed.append(rest.strip())
+    load_findings.inputs = inputs
     return open_, fixed
 
 
@@ -261,9 +275,17 @@ def validate_evidence(path: Path):
 def finish(report: Report, mod) -> int:
     pid = report.prop_id
     open_findings, _fixed = load_findings(pid)
+    listed = load_findings.inputs
     by_sig = {}
     for sig, msg, case in report.violations:
+        if sig in open_findings and listed.get(sig) is not None and case_key(case) not in listed[sig]:
+            sig = sig + "|input-not-listed"  # same class of failure as a recorded finding, but on an input the finding does not name
         by_sig.setdefault(sig, []).append((msg, case))
+    dump = os.environ.get("VERIF_DUMP_VIOLATIONS")
+    if dump:  # maintenance aid (tools/list_finding_inputs.py); never read back by a check
+        with open(dump, "w") as f:
+            for sig, msg, case in report.violations:
+                f.write(json.dumps({"sig": sig, "key": case_key(case), "case": jsonable(case), "msg": msg}) + "\n")
 
     new_sigs = [s for s in by_sig if s not in open_findings]
     known_sigs = [s for s in by_sig if s in open_findings]
